@@ -437,12 +437,12 @@ theorem readPre_inv {w : World} (h : Inv w) : Inv w.readPre.1 := by
     · rw [if_pos h2]; exact Inv_setTerminated h
     · rw [if_neg h2]; exact h
 
-theorem readPre_FS {w : World} (h : Inv w) (hnt : w.c.state ≠ .terminated) :
+theorem readPre_FS {w : World} (hnt : w.c.state ≠ .terminated) :
     FS w w.readPre.1 w.readPre.2 := by
   unfold World.readPre
   by_cases h1 : w.c.additional.isSome = true ∨ w.c.unflushed = true
   · rw [if_pos h1]
-    have hf := flush_FS h hnt
+    have hf := (flush_FSC hnt).toFS
     generalize w.flush = x at *
     obtain ⟨w1, r⟩ := x
     cases r with
@@ -453,7 +453,7 @@ theorem readPre_FS {w : World} (h : Inv w) (hnt : w.c.state ≠ .terminated) :
       | io k =>
         cases k with
         | wouldBlock =>
-          refine ⟨hf.role, hf.log, Or.inl ?_, by simp, Or.inl ⟨(), rfl⟩, hf.qext⟩
+          refine ⟨hf.role, hf.log, Or.inl ?_, hf.slotOk, by simp, Or.inl ⟨(), rfl⟩, hf.qext⟩
           rcases hf.state with h1 | ⟨_, h2⟩
           · exact h1
           · cases h2
@@ -469,6 +469,38 @@ theorem readPre_FS {w : World} (h : Inv w) (hnt : w.c.state ≠ .terminated) :
   · rw [if_neg h1]
     by_cases h2 : w.c.role = .server ∧ (!w.c.state.canRead) = true
     · rw [if_pos h2]
+      have hcr' : w.c.state.canRead = false := by simpa using h2.2
+      exact ⟨rfl, LogExt.refl _, Or.inr ⟨rfl, rfl⟩, fun h => h, fun _ => ⟨hcr', rfl⟩,
+        Or.inr (Or.inr rfl), fun _ => QExt.refl _⟩
+    · rw [if_neg h2]
+      exact FS.refl_ok w ()
+
+/-- with the invariant: a server that reports `ConnectionClosed` at the top of `read` has an empty
+write buffer and an empty slot -/
+theorem readPre_FSC {w : World} (h : Inv w) (hnt : w.c.state ≠ .terminated) :
+    FSC w w.readPre.1 w.readPre.2 := by
+  refine ⟨readPre_FS hnt, ?_⟩
+  unfold World.readPre
+  by_cases h1 : w.c.additional.isSome = true ∨ w.c.unflushed = true
+  · rw [if_pos h1]
+    have hf := flush_FSC hnt
+    generalize w.flush = x at *
+    obtain ⟨w1, r⟩ := x
+    cases r with
+    | ok u => cases u; exact hf.ccw
+    | panic s => exact hf.ccw
+    | err e =>
+      cases e with
+      | io k => cases k <;> simp
+      | connectionClosed => exact hf.ccw
+      | alreadyClosed => exact hf.ccw
+      | capacity a b => exact hf.ccw
+      | protocol p => exact hf.ccw
+      | writeBufferFull f => exact hf.ccw
+      | utf8 => exact hf.ccw
+  · rw [if_neg h1]
+    by_cases h2 : w.c.role = .server ∧ (!w.c.state.canRead) = true
+    · rw [if_pos h2]
       obtain ⟨hrole, hcr⟩ := h2
       have hcr' : w.c.state.canRead = false := by simpa using hcr
       have hnone : w.c.additional = none := by
@@ -479,45 +511,47 @@ theorem readPre_FS {w : World} (h : Inv w) (hnt : w.c.state ≠ .terminated) :
         cases hu : w.c.unflushed with
         | false => rfl
         | true => exact absurd (Or.inr hu) h1
-      refine ⟨rfl, LogExt.refl _, Or.inr ⟨rfl, rfl⟩, ?_, Or.inr (Or.inr rfl), QExt.refl _⟩
       intro _
-      exact ⟨hcr', rfl, Or.inl ⟨hrole, h.drained (closing3_of hcr' hnt) hnone hunf, hnone⟩⟩
+      exact Or.inl ⟨hrole, h.drained (closing3_of hcr' hnt) hnone hunf, hnone⟩
     · rw [if_neg h2]
-      exact FS.refl_ok w ()
+      simp
 
 /-! ### the `read` loop -/
 
-/-- everything the C03/C10 theorems need to know about `read` -/
+/-- what holds of `read` from every state -/
 structure RDSpec (w w' : World) (r : Res Message) : Prop where
   role : w'.c.role = w.c.role
   log : LogExt w.t.log w'.t.log
-  inv : Inv w'
   tr : Tr w.c.state w'.c.state = true
-  qext : QExt w.queued w'.queued
   closeMsg : ∀ c, r = .ok (.close c) → w'.c.state.canRead = false
-  cc : r = .err .connectionClosed → w.c.state.canRead = false ∧ w'.c.state = .terminated ∧
-    ((w.c.role = .server ∧ w'.c.codec.outBuf = [] ∧ w'.c.additional = none) ∨
-      LogEnded w.t.log w'.t.log)
+  cc : r = .err .connectionClosed → w.c.state.canRead = false ∧ w'.c.state = .terminated
   blocked : w.c.state.canRead = false → ∀ m, r ≠ .ok m
 
-theorem readLoop_spec (fuel : Nat) (w : World) (h : Inv w) (hnt : w.c.state ≠ .terminated) :
+/-- what holds of `read` from states satisfying the invariant -/
+structure RDInv (w w' : World) (r : Res Message) : Prop where
+  inv : Inv w'
+  qext : QExt w.queued w'.queued
+  ccw : r = .err .connectionClosed →
+    ((w.c.role = .server ∧ w'.c.codec.outBuf = [] ∧ w'.c.additional = none) ∨
+      LogEnded w.t.log w'.t.log)
+
+theorem readLoop_spec (fuel : Nat) (w : World) (hnt : w.c.state ≠ .terminated) :
     RDSpec w (World.readLoop fuel w).1 (World.readLoop fuel w).2 := by
   induction fuel generalizing w with
   | zero =>
-    exact ⟨rfl, LogExt.refl _, h, Tr.refl _, QExt.refl _, by simp [World.readLoop],
+    exact ⟨rfl, LogExt.refl _, Tr.refl _, by simp [World.readLoop],
       by simp [World.readLoop], by simp [World.readLoop]⟩
   | succ fuel ih =>
     simp only [World.readLoop]
-    have P := readPre_FS h hnt
-    have PI := readPre_inv h
+    have P := readPre_FS hnt
     generalize w.readPre = x at *
     obtain ⟨w1, r1⟩ := x
-    simp only [] at P PI
+    simp only [] at P
     cases r1 with
     | panic s => exact (P.not_panic).elim
     | err e =>
       have P' : FS w w1 (.err e : Res Message) := P.cast_err
-      exact ⟨P.role, P.log, PI, P.tr, P.qext, by simp [andThen], P'.cc, by simp [andThen]⟩
+      exact ⟨P.role, P.log, P.tr, by simp [andThen], P'.cc, by simp [andThen]⟩
     | ok u =>
       have hs1 : w1.c.state = w.c.state := P.state_of_ok
       have hnt1 : w1.c.state ≠ .terminated := hs1 ▸ hnt
@@ -526,26 +560,24 @@ theorem readLoop_spec (fuel : Nat) (w : World) (h : Inv w) (hnt : w.c.state ≠ 
       generalize w1.readMessageFrame = y at *
       obtain ⟨w2, r2⟩ := y
       simp only [] at M
-      have hq2 : QExt w.queued w2.queued := QExt.trans P.qext (QExt.of_eq M.queued)
       have hlog2 : LogExt w.t.log w2.t.log := LogExt.trans P.log M.log
       have htr2 : Tr w.c.state w2.c.state = true := by rw [← hs1]; exact M.tr
       cases r2 with
       | panic s =>
-        exact ⟨M.role.trans P.role, hlog2, M.inv PI, htr2, hq2, by simp [andThen],
-          by simp [andThen], by simp [andThen]⟩
-      | err e =>
-        refine ⟨M.role.trans P.role, hlog2, M.inv PI, htr2, hq2, by simp [andThen], ?_,
+        exact ⟨M.role.trans P.role, hlog2, htr2, by simp [andThen], by simp [andThen],
           by simp [andThen]⟩
+      | err e =>
+        refine ⟨M.role.trans P.role, hlog2, htr2, by simp [andThen], ?_, by simp [andThen]⟩
         intro hr
         have hr' : (Res.err e : Res (Option Message)) = .err .connectionClosed := by
           simp only [andThen] at hr
           injection hr with hr; rw [hr]
-        obtain ⟨c1, c2, c3⟩ := M.cc hr'
-        exact ⟨hs1 ▸ c1, c2, Or.inr (LogEnded.trans_right P.log c3)⟩
+        obtain ⟨c1, c2, _⟩ := M.cc hr'
+        exact ⟨hs1 ▸ c1, c2⟩
       | ok om =>
         cases om with
         | some m =>
-          refine ⟨M.role.trans P.role, hlog2, M.inv PI, htr2, hq2, ?_, by simp [andThen], ?_⟩
+          refine ⟨M.role.trans P.role, hlog2, htr2, ?_, by simp [andThen], ?_⟩
           · intro c hc
             have : m = .close c := by
               simp only [andThen] at hc
@@ -555,16 +587,62 @@ theorem readLoop_spec (fuel : Nat) (w : World) (h : Inv w) (hnt : w.c.state ≠ 
             exact M.blocked (hs1 ▸ hcr) (some m) rfl
         | none =>
           have hs2 : w2.c.state = w1.c.state := M.none rfl
-          have R := ih w2 (M.inv PI) (by rw [hs2]; exact hnt1)
+          have R := ih w2 (by rw [hs2]; exact hnt1)
           show RDSpec w (World.readLoop fuel w2).1 (World.readLoop fuel w2).2
           have hs02 : w2.c.state = w.c.state := hs2.trans hs1
-          refine ⟨R.role.trans (M.role.trans P.role), LogExt.trans hlog2 R.log, R.inv,
-            by rw [← hs02]; exact R.tr, QExt.trans hq2 R.qext, R.closeMsg, ?_,
-            fun hcr => R.blocked (hs02 ▸ hcr)⟩
+          refine ⟨R.role.trans (M.role.trans P.role), LogExt.trans hlog2 R.log,
+            by rw [← hs02]; exact R.tr, R.closeMsg, ?_, fun hcr => R.blocked (hs02 ▸ hcr)⟩
           intro hr
-          obtain ⟨c1, c2, c3⟩ := R.cc hr
-          refine ⟨hs02 ▸ c1, c2, ?_⟩
-          rcases c3 with ⟨r1, r2, r3⟩ | c3
+          obtain ⟨c1, c2⟩ := R.cc hr
+          exact ⟨hs02 ▸ c1, c2⟩
+
+theorem readLoop_inv (fuel : Nat) (w : World) (h : Inv w) (hnt : w.c.state ≠ .terminated) :
+    RDInv w (World.readLoop fuel w).1 (World.readLoop fuel w).2 := by
+  induction fuel generalizing w with
+  | zero => exact ⟨h, QExt.refl _, by simp [World.readLoop]⟩
+  | succ fuel ih =>
+    simp only [World.readLoop]
+    have P := readPre_FSC h hnt
+    have PI := readPre_inv h
+    generalize w.readPre = x at *
+    obtain ⟨w1, r1⟩ := x
+    simp only [] at P PI
+    have hq1 : QExt w.queued w1.queued := P.qext h.slotOk
+    cases r1 with
+    | panic s => exact (P.toFS.not_panic).elim
+    | err e =>
+      have P' : FSC w w1 (.err e : Res Message) := P.cast_err
+      exact ⟨PI, hq1, P'.ccw⟩
+    | ok u =>
+      have hs1 : w1.c.state = w.c.state := P.toFS.state_of_ok
+      have hnt1 : w1.c.state ≠ .terminated := hs1 ▸ hnt
+      show RDInv w (andThen w1.readMessageFrame _).1 (andThen w1.readMessageFrame _).2
+      have M := readMessageFrame_spec w1
+      generalize w1.readMessageFrame = y at *
+      obtain ⟨w2, r2⟩ := y
+      simp only [] at M
+      have hq2 : QExt w.queued w2.queued := QExt.trans hq1 (QExt.of_eq M.queued)
+      have hlog2 : LogExt w.t.log w2.t.log := LogExt.trans P.log M.log
+      cases r2 with
+      | panic s => exact ⟨M.inv PI, hq2, by simp [andThen]⟩
+      | err e =>
+        refine ⟨M.inv PI, hq2, ?_⟩
+        intro hr
+        have hr' : (Res.err e : Res (Option Message)) = .err .connectionClosed := by
+          simp only [andThen] at hr
+          injection hr with hr; rw [hr]
+        obtain ⟨_, _, c3⟩ := M.cc hr'
+        exact Or.inr (LogEnded.trans_right P.log c3)
+      | ok om =>
+        cases om with
+        | some m => exact ⟨M.inv PI, hq2, by simp [andThen]⟩
+        | none =>
+          have hs2 : w2.c.state = w1.c.state := M.none rfl
+          have R := ih w2 (M.inv PI) (by rw [hs2]; exact hnt1)
+          show RDInv w (World.readLoop fuel w2).1 (World.readLoop fuel w2).2
+          refine ⟨R.inv, QExt.trans hq2 R.qext, ?_⟩
+          intro hr
+          rcases R.ccw hr with ⟨r1, r2, r3⟩ | c3
           · exact Or.inl ⟨(M.role.trans P.role) ▸ r1, r2, r3⟩
           · exact Or.inr (LogEnded.trans_right hlog2 c3)
 
